@@ -4,13 +4,14 @@ From Coq Require Import List NArith Bool Arith.
 From J5V.model Require Import Conc ConcRace.
 Import ListNotations.
 
-(* logic level: for every type universe (cyclic or not), every list of calls per thread
-   (any number of threads), every depth of observation —
+(* logic level: for every type universe (cyclic or not, with or without types that cannot
+   be reflected), every list of calls per thread (any number of threads; the calls are on
+   types, [calls_ok]), every depth of observation —
    under every schedule the completed calls returned their solo results, and while a call
    is outstanding some thread can take a state-changing step (no deadlock);
    every fair schedule of fuel_bound rounds completes all calls with their solo results *)
 Definition C10_logic_statement (d : disc) : Prop :=
-  forall k g calls,
+  forall k g calls, calls_ok calls ->
     (forall sched t, exists j, nth t (results (run d k g calls sched)) [] =
                                map (result_solo k g) (firstn j (nth t calls []))) /\
     (forall sched, all_done (run d k g calls sched) = false ->
@@ -25,7 +26,7 @@ Definition C10_logic_statement (d : disc) : Prop :=
    order + "Unlock is synchronized before a later Lock" (the Go memory model's rule for
    sync.Mutex), and every To field is written once *)
 Definition C10_memory_statement (d : disc) : Prop :=
-  forall k g calls sched,
+  forall k g calls sched, calls_ok calls ->
     race_free (events d k g calls sched) /\ write_once (events d k g calls sched).
 
 Definition C10_full_statement (d : disc) : Prop := C10_logic_statement d /\ C10_memory_statement d.
